@@ -74,7 +74,8 @@ partial def parseInsts : List String → List Instance → Option (List Instance
       let t ← parseNat? t; let en ← parseNat? en; let sc ← parseNat? sc; let fl ← parseNat? fl
       let fw ← parseNat? fw; let res ← parseNat? res; let v0 ← parseNat? v0; let vs ← parseNat? vs
       let x : Instance := { itype := t, enabled := (en != 0), scheme := sc, filter := fl,
-        filterWidth := fw, resolution := res, value := fun c => (v0 + vs * c) % 2 ^ res, latch := [] }
+                            filterWidth := fw, resolution := res,
+                            value := (fun c => (v0 + vs * c) % 2 ^ res), latch := [] }
       parseInsts rest (acc ++ [x])
   | rest, acc => some (acc, rest)
 
